@@ -82,7 +82,7 @@ def build(r):
     q.conj = []
     k0 = 100 + r.randint(0, 50) * 10
     kinds = [r.choice(['model-eq', 'model-eq', 'table-cmp', 'table-cmp', 'table-cmp-rev', 'table-in', 'model-gt', 'not-model-eq', 'not-table', 'or-mix',
-                       'func-wrapped', 'cross', 'nested-and', 'model-eq-str', 'model-eq-expr', 'model-eq-nonconst'])
+                       'func-wrapped', 'cross', 'cross-between', 'nested-and', 'model-eq-str', 'model-eq-expr', 'model-eq-nonconst'])
              for _ in range(r.randint(0, 4))]
     used_cols = set()
     for i, k in enumerate(kinds):
@@ -136,6 +136,10 @@ def build(r):
             q.conj.append({'kind': k, 'text': f'abs(t.a) = {c}', 'consts': [c], 'stay': True, 'under': 'function'})
         elif k == 'cross':
             q.conj.append({'kind': k, 'text': f't.a + {c} = m.q4', 'consts': [c], 'stay': True})
+        elif k == 'cross-between':
+            # a range test on a table column with ONE bound from the model: mentions the model, so it is no filter of the table's fetch
+            text = r.choice([f't.a BETWEEN {c} AND m.q5', f't.a BETWEEN m.q5 AND {c}', f't.id BETWEEN {c} AND m.q5 + 1'])
+            q.conj.append({'kind': k, 'text': text, 'consts': [c], 'stay': True})
         elif k == 'nested-and':
             col = r.choice([x for x in ['p6', 'p7'] if x not in used_cols] or ['p8'])
             used_cols.add(col)
